@@ -123,7 +123,8 @@ class Flavour:
         return cls(name, calc_data_id=self.calc_data_id())
 
     def kind(self, k):
-        return KINDS[k]
+        # a NEW string object each time: kinds are values, not identities
+        return "".join(list(KINDS[k]))
 
     def kind_id(self, node):
         if not self.typed:
